@@ -543,6 +543,18 @@ Proof.
   intros Hinv Hck Hnow Hc Hs. simpl. apply (refresh_same_verdict s f now); auto.
 Qed.
 
+Lemma touch_md5_run ops f t :
+  fs_fresh ops = true -> s_ck (run ops) = MD5 -> check (run (ops ++ [Touch f])) t = check (run ops) t.
+Proof. intros Hf Hck. rewrite run_snoc. apply touch_md5; auto. apply run_inv; auto. Qed.
+
+Lemma rewrite_md5_run ops f c now t :
+  fs_fresh ops = true -> s_ck (run ops) = MD5 -> s_fs (run ops) f = Some now -> content now = c -> size now = size_of c ->
+  check (run (ops ++ [Write f c])) t = check (run ops) t.
+Proof. intros Hf Hck Hnow Hc Hs. rewrite run_snoc. apply (rewrite_md5 _ f c now); auto. apply run_inv; auto. Qed.
+
+Lemma uptodate_not_executed s t : g_status (check s t) = UpToDate -> executes md5 v s t false = false.
+Proof. intros H. unfold executes. fold (check s t). rewrite H. apply andb_false_r. Qed.
+
 (* ---------- a run repeated after a successful one ---------- *)
 Definition same_env (s s' : state) : Prop := s_fs s' = s_fs s /\ s_defs s' = s_defs s /\ s_ck s' = s_ck s.
 Definition op_on (t : name) (o : op) : Prop := o = Check t \/ o = SaveOk t \/ o = Remove t.
